@@ -527,7 +527,12 @@ impl ChainStorage for ZarrAsyncChainStorage {
                     .copied()
                     .unwrap_or(0);
                 let s = sample_counts.get(dim.as_str()).copied().unwrap_or(0);
-                (dim.clone(), (w, s))
+                if self.last_sample_was_warmup {
+                    // Sampling never started: the buffers still belong to the warmup phase.
+                    (dim.clone(), (s, 0))
+                } else {
+                    (dim.clone(), (w, s))
+                }
             })
             .collect();
         Ok(counts)
@@ -547,7 +552,12 @@ impl ChainStorage for ZarrAsyncChainStorage {
                 .copied()
                 .unwrap_or(0);
             let entry = counts.entry(dim.clone()).or_insert((w, 0));
-            entry.1 = entry.1.max(s);
+            if self.last_sample_was_warmup {
+                // Sampling has not started: the buffers still belong to the warmup phase.
+                entry.0 = entry.0.max(s);
+            } else {
+                entry.1 = entry.1.max(s);
+            }
         }
         Ok(Some(counts))
     }
